@@ -11,6 +11,7 @@
 #define INCLUDED_IMATHFRAME_H
 
 #include "ImathNamespace.h"
+#include <cmath>
 
 IMATH_INTERNAL_NAMESPACE_HEADER_ENTER
 
@@ -167,7 +168,7 @@ Matrix44<T> constexpr nextFrame (
         else if (dot < -1.0)
             dot = -1.0;
 
-        r = acosf (dot);
+        r = std::acos (dot);
         a = ti.cross (tj);
     }
 
